@@ -60,6 +60,7 @@ impl<R: Read + Seek> ReadBox<&mut R> for UdtaBox {
                     "udta box contains a box with a larger size than it",
                 ));
             }
+            check_child_size(s)?;
 
             match name {
                 BoxType::MetaBox => {
